@@ -43,6 +43,53 @@ def specWrite (a : AbsState) (clock : Int) (op : WOp) : AbsState × WResult :=
     | (a', .error _) => (a', .error .notFound)
   | .remove => ((a.remove op.svr op.res).1, .ok none)
 
+theorem add_error_only (a : AbsState) (clock : Int) (svr : Server) (res : Resolver) (e : RErr)
+    (h : (a.add clock svr res).2 = .error e) : e = .serverExists := by
+  unfold AbsState.add at h
+  cases hr : a.getRow svr.addr with
+  | none => simp [hr, AbsState.save] at h
+  | some ex =>
+    cases hres : res ex.svr with
+    | none => simp only [hr, hres] at h; cases h; rfl
+    | some r => simp [hr, hres, AbsState.save] at h
+
+theorem update_error_only (a : AbsState) (clock : Int) (svr : Server) (res : Resolver) (e : RErr)
+    (h : (a.update clock svr res).2 = .error e) : e = .serverNotFound := by
+  unfold AbsState.update at h
+  cases hr : a.getRow svr.addr with
+  | none => simp only [hr] at h; cases h; rfl
+  | some ex =>
+    by_cases hv : ex.svr.version > svr.version
+    · cases hres : res ex.svr with
+      | none => simp [hr, hv, hres] at h
+      | some r => simp [hr, hv, hres, AbsState.save] at h
+    · simp [hr, hv, AbsState.save] at h
+
+theorem remove_ok (a : AbsState) (svr : Server) (res : Resolver) : (a.remove svr res).2 = .ok () := by
+  unfold AbsState.remove
+  cases hr : a.getRow svr.addr with
+  | none => rfl
+  | some ex =>
+    by_cases hv : ex.svr.version > svr.version
+    · cases hres : res ex.svr <;> simp [hv, hres]
+    · simp [hv]
+
+theorem specWrite_add (a : AbsState) (clock : Int) (svr : Server) (res : Resolver) :
+    (specWrite a clock ⟨.add, svr, res⟩).1 = (a.add clock svr res).1 ∧
+    (specWrite a clock ⟨.add, svr, res⟩).2 =
+      (match (a.add clock svr res).2 with | .ok s => .ok (some s) | .error _ => .error .exists) := by
+  simp only [specWrite]
+  rcases hx : a.add clock svr res with ⟨a', r⟩
+  cases r <;> exact ⟨rfl, rfl⟩
+
+theorem specWrite_update (a : AbsState) (clock : Int) (svr : Server) (res : Resolver) :
+    (specWrite a clock ⟨.update, svr, res⟩).1 = (a.update clock svr res).1 ∧
+    (specWrite a clock ⟨.update, svr, res⟩).2 =
+      (match (a.update clock svr res).2 with | .ok s => .ok (some s) | .error _ => .error .notFound) := by
+  simp only [specWrite]
+  rcases hx : a.update clock svr res with ⟨a', r⟩
+  cases r <;> exact ⟨rfl, rfl⟩
+
 /-- store after the lock round trip `SET NX` … `DEL` around a batch (ghost version counters aside, the lock map is as before) -/
 theorem locks_insert_erase {m : ExtTreeMap Nat LockCell} {k : Nat} {c : LockCell} (h : m[k]? = none) :
     (m.insert k c).erase k = m := by
@@ -603,6 +650,170 @@ theorem count_refines {st : RStore} {a : AbsState} (hrel : Rel st a) : st.items.
   unfold AbsState.count
   rw [hrel.servers_eq, absServers, ExtTreeMap.size_map]
 
+/-- `CountByStatus` at the Redis level: one `SCARD` per member of `ds.Members()` -/
+def countByM (st : RStore) : List Nat :=
+  bitIdx.map fun b => (st.statusSet.toList.filter fun e => e % 16 == b).length
+
+theorem abs_countByStatus_eq {st : RStore} {a : AbsState} (hrel : Rel st a) (m : Status) :
+    a.countByStatus m = (st.items.toList.filter fun p => Status.has p.2.status m).length := by
+  unfold AbsState.countByStatus
+  rw [hrel.servers_eq, absServers_toList, List.filter_map, List.length_map]
+  rfl
+
+theorem scard_eq {st : RStore} (hc : Consistent st) {b : Nat} (hb : b < 9) :
+    (st.statusSet.toList.filter fun e => e % 16 == b).length =
+      (st.items.toList.filter fun p => hasBit p.2.status b).length := by
+  let K := (st.items.toList.filter fun p => hasBit p.2.status b).map (·.1)
+  have hK : K.Nodup := ((List.filter_sublist (l := st.items.toList)).map (·.1)).nodup (nodup_keys_toList _)
+  have hKmem : ∀ k, k ∈ K ↔ ∃ r : Server, st.items[k]? = some r ∧ hasBit r.status b = true := by
+    intro k
+    simp only [K, List.mem_map, List.mem_filter]
+    constructor
+    · rintro ⟨⟨k', r⟩, ⟨hm, hp⟩, rfl⟩
+      exact ⟨r, (ExtTreeMap.mem_toList_iff_getElem?_eq_some).1 hm, hp⟩
+    · rintro ⟨r, hr, hp⟩
+      exact ⟨(k, r), ⟨(ExtTreeMap.mem_toList_iff_getElem?_eq_some).2 hr, hp⟩, rfl⟩
+  have hperm : (st.statusSet.toList.filter fun e => e % 16 == b).Perm (K.map fun k => stKey k b) := by
+    rw [List.perm_ext_iff_of_nodup ((List.filter_sublist).nodup (nodup_set_toList _))
+      (hK.map (f := fun k => stKey k b) (fun x y hxy he => hxy ((stKey_inj (by omega) (by omega)).1 he).1))]
+    intro e
+    simp only [List.mem_filter, ExtTreeSet.mem_toList, beq_iff_eq, List.mem_map, hKmem]
+    constructor
+    · rintro ⟨hmem, hmod⟩
+      have he : stKey (e / 16) b = e := by rw [← hmod]; exact stKey_div_mod e
+      rw [← he] at hmem
+      exact ⟨e / 16, (hc.sts (e / 16) b hb).1 hmem, he⟩
+    · rintro ⟨k, hk, rfl⟩
+      exact ⟨(hc.sts k b hb).2 hk, stKey_mod (by omega)⟩
+  rw [hperm.length_eq, List.length_map, List.length_map]
+
+/-- `CountByStatus`: every `SCARD servers:status:<m>` is the number of stored records having `m` -/
+theorem countByStatus_refines {st : RStore} {a : AbsState} (hc : Consistent st) (hrel : Rel st a) :
+    countByM st = Status.members.map a.countByStatus := by
+  unfold countByM
+  rw [members_eq, List.map_map]
+  apply List.map_congr_left
+  intro b hb
+  have hb9 : b < 9 := mem_bitIdx.1 hb
+  simp only [Function.comp, abs_countByStatus_eq hrel, has_member _ hb9]
+  exact scard_eq hc hb9
+
 end RStore
+
+/-! ## histories of registry calls -/
+
+/-- a registry call (or a clock advance between calls) -/
+inductive RCall where
+  | write (op : WOp)
+  | get (a : Addr)
+  | filter (fs : FilterSet)
+  | count
+  | countBy
+  | tick (d : Int)
+
+inductive RRes where
+  | write (r : WResult)
+  | hung                              -- the writer did not finish within its command budget
+  | get (r : Except RErr Server)
+  | servers (l : List Server)
+  | count (n : Nat)
+  | counts (l : List Nat)
+  | none
+
+/-- results agree: `Filter` results as multisets (the implementation's order is unspecified), everything else exactly -/
+inductive ResEq : RRes → RRes → Prop where
+  | write (r : WResult) : ResEq (.write r) (.write r)
+  | get (r : Except RErr Server) : ResEq (.get r) (.get r)
+  | servers {l l' : List Server} (h : l.Perm l') : ResEq (.servers l) (.servers l')
+  | count (n : Nat) : ResEq (.count n) (.count n)
+  | counts (l : List Nat) : ResEq (.counts l) (.counts l)
+  | none : ResEq .none .none
+
+/-- result lists agree item by item -/
+inductive HistEq : List RRes → List RRes → Prop where
+  | nil : HistEq [] []
+  | cons {r r' : RRes} {rs rs' : List RRes} (h : ResEq r r') (t : HistEq rs rs') : HistEq (r :: rs) (r' :: rs')
+
+/-- sequential state of the Redis-level model (as `Drv.SeqState`): keyspace, clock, next lock token -/
+structure SeqM where
+  st : RStore
+  clock : Int
+  fresh : Nat
+
+/-- one call on the Redis-level model: writes run the lock/WATCH writer machine to completion
+(16 commands suffice), reads are the index pipeline + `HMGET` / `HGET` / `HLEN` / nine `SCARD` -/
+def stepM (s : SeqM) : RCall → SeqM × RRes
+  | .write op =>
+    let out := runWriter s.st s.clock (Writer.start op s.fresh) (s.fresh + 1) 16
+    ({ s with st := out.1, fresh := s.fresh + 1 }, match out.2.pc with | .done r => .write r | _ => .hung)
+  | .get a => (s, .get (RStore.getM s.st a))
+  | .filter fs => (s, .servers (s.st.hmgetItems (s.st.filterKeys fs)))
+  | .count => (s, .count s.st.items.size)
+  | .countBy => (s, .counts (RStore.countByM s.st))
+  | .tick d => ({ s with clock := s.clock + d }, .none)
+
+/-- one call on the specification -/
+def stepS (s : AbsState × Int) : RCall → (AbsState × Int) × RRes
+  | .write op => let out := specWrite s.1 s.2 op; ((out.1, s.2), .write out.2)
+  | .get a => (s, .get (s.1.get a))
+  | .filter fs => (s, .servers (s.1.filter fs))
+  | .count => (s, .count s.1.count)
+  | .countBy => (s, .counts (Status.members.map s.1.countByStatus))
+  | .tick d => ((s.1, s.2 + d), .none)
+
+def runHistM : SeqM → List RCall → List RRes
+  | _, [] => []
+  | s, c :: cs => (stepM s c).2 :: runHistM (stepM s c).1 cs
+
+def runHistS : AbsState × Int → List RCall → List RRes
+  | _, [] => []
+  | s, c :: cs => (stepS s c).2 :: runHistS (stepS s c).1 cs
+
+/-- the simulation invariant between calls: indexes consistent, states related, no lock cell left behind, same clock -/
+structure Sim (m : SeqM) (s : AbsState × Int) : Prop where
+  cons : Consistent m.st
+  rel : Rel m.st s.1
+  nolock : ∀ k : Nat, m.st.locks[k]? = none
+  clock : m.clock = s.2
+
+theorem step_sim {m : SeqM} {s : AbsState × Int} (h : Sim m s) (c : RCall) :
+    Sim (stepM m c).1 (stepS s c).1 ∧ ResEq (stepM m c).2 (stepS s c).2 := by
+  cases c with
+  | write op =>
+    obtain ⟨h1, h2, h3⟩ := write_refines_aux h.rel m.clock op m.fresh (m.fresh + 1) (h.nolock _)
+    simp only [stepM, stepS]
+    rw [h1, ← h.clock]
+    refine ⟨⟨runWriter_consistent h.cons _ _ _ _, h2, ?_, rfl⟩, ResEq.write _⟩
+    intro k
+    show (runWriter m.st m.clock (Writer.start op m.fresh) (m.fresh + 1) 16).1.locks[k]? = none
+    rw [h3]; exact h.nolock k
+  | get a =>
+    refine ⟨h, ?_⟩
+    simp only [stepM, stepS, RStore.get_refines h.rel]
+    exact ResEq.get _
+  | filter fs => exact ⟨h, ResEq.servers (RStore.filter_eq_pred h.cons h.rel fs)⟩
+  | count =>
+    refine ⟨h, ?_⟩
+    simp only [stepM, stepS, RStore.count_refines h.rel]
+    exact ResEq.count _
+  | countBy =>
+    refine ⟨h, ?_⟩
+    simp only [stepM, stepS, RStore.countByStatus_refines h.cons h.rel]
+    exact ResEq.counts _
+  | tick d =>
+    refine ⟨⟨h.cons, h.rel, h.nolock, ?_⟩, ResEq.none⟩
+    show m.clock + d = s.2 + d
+    rw [h.clock]
+
+theorem runHist_sim {m : SeqM} {s : AbsState × Int} (h : Sim m s) (cs : List RCall) :
+    HistEq (runHistM m cs) (runHistS s cs) := by
+  induction cs generalizing m s with
+  | nil => exact HistEq.nil
+  | cons c cs ih =>
+    have := step_sim h c
+    exact HistEq.cons this.2 (ih this.1)
+
+theorem sim_init (clock : Int) (fresh : Nat) : Sim ⟨{}, clock, fresh⟩ ({}, clock) :=
+  ⟨consistent_empty, rel_empty, fun k => by simp, rfl⟩
 
 end Swat4
